@@ -426,6 +426,8 @@ class Ops:
       s = v.sort
       if getattr(s, 'pytypes', None):
         return set(s.pytypes)
+      if isinstance(s, Opaque) and s.is_str and not s.nullable:
+        return {'str', 'typing.Collection', 'Collection'}
       if s is BOOL:
         return {'bool', 'int'}
       if isinstance(s, IntSort):
